@@ -15,6 +15,7 @@ mod proto;
 mod per;
 mod probes;
 mod seq;
+mod strs;
 mod versions;
 
 use input::Input;
@@ -51,6 +52,7 @@ pub fn run_case(input: &Input) -> Result<(), String> {
         "zoo_types" => zoo::run_zoo(&i),
         "front_resolve" => front::run_resolve(&i),
         "front_inttext" => front::run_inttext(&i),
+        "str_api" => strs::run(&i),
         "charset_char" => {
             use asn1rs::model::asn::Charset;
             let c = char::from_u32(i.v[0] as u32).unwrap();
@@ -129,6 +131,7 @@ fn main() {
                     "zoo" => zoo::search_zoo(seed.max(1), budget, &mut try_one),
                     "resolve" => front::search_resolve(&mut try_one),
                     "inttext" => front::search_inttext(&mut try_one),
+                    "strings" => strs::search(&mut try_one),
                     "charset" => {
                         // exhaustive over all chars: Charset::is_valid against the X.680 clause 41 alphabets
                         let mut c = 0u32;
